@@ -1089,9 +1089,25 @@ impl<'t, 'c> Gen<'t, 'c> {
         if pos <= 1 && self.t.chance(2, 3) {
             body.push(self.tok("a"));
         }
-        match self.t.choose(7) {
+        match self.t.choose(10) {
             0 => body,
             1 => vec![Stmt::If { arms: vec![(lit_i(-1), body)], else_: None }],
+            7 => {
+                // the block is followed by an ELSE block that must not run
+                let e = self.tok("e");
+                vec![Stmt::If { arms: vec![(lit_i(-1), body)], else_: Some(vec![e]) }]
+            }
+            8 => {
+                let e1 = self.tok("e");
+                let e2 = self.tok("e");
+                let e3 = self.tok("e");
+                vec![Stmt::If { arms: vec![(lit_i(0), vec![e1]), (lit_i(-1), body), (lit_i(-1), vec![e2])], else_: Some(vec![e3]) }]
+            }
+            9 => {
+                let e1 = self.tok("e");
+                let e2 = self.tok("e");
+                vec![Stmt::Select { subject: lit_i(1), cases: vec![(vec![CaseItem::Val(lit_i(1))], body), (vec![CaseItem::Val(lit_i(1)), CaseItem::Val(lit_i(2))], vec![e1])], else_: Some(vec![e2]) }]
+            }
             2 => {
                 let c = self.fresh_counter(Ty::Int);
                 vec![Stmt::For { var: c, from: lit_i(1), to: lit_i(2), step: None, body, next_names: false }]
@@ -1109,10 +1125,11 @@ impl<'t, 'c> Gen<'t, 'c> {
                 vec![Stmt::Assign(c.clone(), lit_i(0)), Stmt::Do { kind: DoKind::BottomUntil, cond: b(BinOp::Ge, ld(&c), lit_i(2)), body: bd }]
             }
             5 => vec![Stmt::Select { subject: lit_i(1), cases: vec![(vec![CaseItem::Val(lit_i(1))], body)], else_: None }],
-            _ => {
+            6 => {
                 let c = self.fresh_counter(Ty::Int);
                 vec![Stmt::For { var: c, from: lit_i(2), to: lit_i(1), step: Some(lit_i(-1)), body, next_names: false }]
             }
+            _ => unreachable!(),
         }
     }
 
@@ -1178,6 +1195,51 @@ impl<'t, 'c> Gen<'t, 'c> {
         let mut main: Vec<Stmt> = vec![];
         main.push(Stmt::Dim(Dim { var: arr, name: "ARR%".into(), bounds: vec![(0, 2)], explicit_lower: false, sty: STy::B(Ty::Int), extended: false, shared: false }));
         main.push(Stmt::Assign(sentinel.clone(), lit_i(77)));
+        // optionally: subprograms whose bodies hold a failing statement (handled by the module-level handler)
+        let mut sub_ids: Vec<usize> = vec![];
+        let mut extra_routines: Vec<Stmt> = vec![];
+        if self.t.chance(1, 2) {
+            let shared: [(&str, Ty); 6] = [("Z%", Ty::Int), ("BIG&", Ty::Long), ("N%", Ty::Int), ("SM%", Ty::Int), ("SR!", Ty::Single), ("TR$", Ty::Str)];
+            for (nm, ty) in shared.iter() {
+                let gi = self.prog.vars.iter().position(|v| v.name == *nm).unwrap();
+                self.prog.vars[gi].shared = true;
+                main.push(Stmt::Dim(Dim { var: gi, name: nm.to_string(), bounds: vec![], explicit_lower: false, sty: STy::B(*ty), extended: false, shared: true }));
+            }
+            let nsubs = 1 + self.t.choose(2);
+            for k in 0..nsubs {
+                let p = self.prog.procs.len();
+                let mut vars: Vec<VarInfo> = vec![];
+                let mut lv: Vec<LValue> = vec![];
+                for (nm, ty) in shared.iter() {
+                    vars.push(VarInfo { name: nm.to_string(), sty: STy::B(*ty), bounds: vec![], shared: true });
+                    lv.push(sv(nm, vars.len() - 1, *ty));
+                }
+                self.prog.procs.push(Proc { name: format!("CS{}", k + 1), ret: None, params: vec![], is_static: false, body: vec![], vars: vars.clone(), result_var: None });
+                let main_scope = std::mem::take(&mut self.scope);
+                self.in_proc = Some(p);
+                for (i, v) in vars.iter().enumerate() {
+                    self.scope.push(ScopeVar { idx: i, name: v.name.clone(), sty: v.sty.clone(), bounds: vec![], reserved: true, readable: true });
+                }
+                let pcv = ControlVars { z: lv[0].clone(), big: lv[1].clone(), idx: lv[0].clone(), n: lv[2].clone(), small: lv[3].clone(), sres: lv[4].clone(), tres: lv[5].clone(), arr: 0, cnt: lv[0].clone() };
+                let mut body = vec![self.tok("s")];
+                if k > 0 && self.t.chance(1, 2) {
+                    body.push(Stmt::CallSub(sub_ids[0], vec![]));
+                    body.push(self.tok("v"));
+                }
+                let kind = *self.t.pick(&[0usize, 1, 3]);
+                let f = self.failing(&pcv, kind);
+                let e = self.enclose(f);
+                body.extend(e);
+                // otherwise the block with the failing statement is the last statement of the subprogram
+                if self.t.chance(2, 3) {
+                    body.push(self.tok("u"));
+                }
+                self.prog.procs[p].body = body;
+                self.in_proc = None;
+                self.scope = main_scope;
+                sub_ids.push(p);
+            }
+        }
         let nh = 1 + self.t.choose(2);
         let handler_labels: Vec<String> = (0..nh).map(|k| format!("H{}", k + 1)).collect();
         let nr = self.t.choose(3);
@@ -1197,8 +1259,53 @@ impl<'t, 'c> Gen<'t, 'c> {
             active = Some(h);
         }
         for _ in 0..segs {
-            match self.t.choose(12) {
+            match self.t.choose(15) {
                 0 | 1 => main.push(self.tok("t")),
+                12 | 13 => {
+                    // call of a subprogram that fails inside
+                    if sub_ids.is_empty() {
+                        main.push(self.tok("t"));
+                    } else {
+                        let p = sub_ids[self.t.choose(sub_ids.len())];
+                        let c = vec![Stmt::CallSub(p, vec![])];
+                        let e = if self.t.chance(1, 3) { self.enclose(c) } else { c };
+                        main.extend(e);
+                        main.push(self.tok("p"));
+                    }
+                }
+                14 => {
+                    // RETURN <label>: the GOSUB is over, control continues at the label
+                    self.label_seq += 1;
+                    let n = self.label_seq;
+                    let (ro, ri, sk) = (format!("RO{}", n), format!("RI{}", n), format!("SK{}", n));
+                    if self.t.chance(1, 2) {
+                        // nested: the inner routine returns to a label inside the outer one, whose RETURN must go back to the main line
+                        main.push(Stmt::Gosub(ro.clone()));
+                        main.push(self.tok("g"));
+                        extra_routines.push(Stmt::Label(ro));
+                        extra_routines.push(self.tok("o"));
+                        extra_routines.push(Stmt::Gosub(ri.clone()));
+                        extra_routines.push(self.tok("skipped"));
+                        extra_routines.push(Stmt::Label(sk.clone()));
+                        extra_routines.push(self.tok("o"));
+                        extra_routines.push(Stmt::Return);
+                        extra_routines.push(Stmt::Label(ri));
+                        extra_routines.push(self.tok("i"));
+                        extra_routines.push(Stmt::ReturnTo(sk));
+                    } else {
+                        main.push(Stmt::Gosub(ri.clone()));
+                        main.push(self.tok("skipped"));
+                        main.push(Stmt::Label(sk.clone()));
+                        main.push(self.tok("g"));
+                        // a RETURN now has no GOSUB left to return to (error 3) - only sometimes, it ends the run
+                        if self.t.chance(1, 6) {
+                            main.push(Stmt::Return);
+                        }
+                        extra_routines.push(Stmt::Label(ri));
+                        extra_routines.push(self.tok("i"));
+                        extra_routines.push(Stmt::ReturnTo(sk));
+                    }
+                }
                 2 | 3 => {
                     // enable / switch / disable a handler
                     if active.is_some() && self.t.chance(1, 4) {
@@ -1292,6 +1399,7 @@ impl<'t, 'c> Gen<'t, 'c> {
             }
             main.push(Stmt::Return);
         }
+        main.extend(extra_routines);
         // handlers
         for (k, l) in handler_labels.iter().enumerate() {
             main.push(Stmt::Label(l.clone()));
